@@ -23,6 +23,7 @@ for u in P0.all_units(with_closures=False):
     if sg:
         locs[u.qual] = sg
 head = subprocess.run(['git', '-C', root, 'rev-parse', 'HEAD'], capture_output=True, text=True).stdout.strip()
-(VERIF / 'sa' / 'pinned.json').write_text(json.dumps({'reference_commit': head, 'symbols': syms, 'locals': locs, 'bodies': bodies},
+(VERIF / 'sa' / 'pinned.json').write_text(json.dumps({'reference_commit': head, 'symbols': syms, 'locals': locs, 'bodies': bodies,
+                                                                  'cattrs': Canonicaliser.cattr_signatures(Program(root))},
                                                       indent=0, sort_keys=True) + '\n')
 print(len(syms), 'symbols and the locals of', len(locs), 'functions frozen from', head)
